@@ -63,20 +63,20 @@ def handlePOp (acc : Acc) (h : FHist) (kv : KV) (line : String) : Acc × FHist :
         then acc.report "SPECFAIL" "C18" "feed-submission-not-recorded-as-submitted" line else acc
       match appendPrice feedPre snd key (kv.nat "price") (kv.nat "ts") with
       | .ok f => if ok && sameFeed f then acc else (acc.report "DISAGREE" "C18" "feed-append" line).report "DISAGREE" "C09" "feed-append" line
-      | .error _ => if ok then (acc.report "DISAGREE" "C18" "feed-append-accept" line).report "DISAGREE" "C09" "feed-append-accept" line else acc
+      | .error e => let acc := acc.cover s!"feed.{op}:{errTagOf e}"; if ok then (acc.report "DISAGREE" "C18" "feed-append-accept" line).report "DISAGREE" "C09" "feed-append-accept" line else acc
     | "appendm" =>
       let acc := if ok && snd != h.owner then acc.report "SPECFAIL" "C09" "price-submitted-by-non-owner" line else acc
       let acc := if ok && !(Spec.C18F.recordedOk pre (readRounds (post.get key)) ((parseNatList (kv.str "prices")).zip (parseNatList (kv.str "tss"))))
         then acc.report "SPECFAIL" "C18" "feed-submissions-not-recorded-as-submitted" line else acc
       match appendMultiple feedPre snd key (parseNatList (kv.str "prices")) (parseNatList (kv.str "tss")) with
       | .ok f => if ok && sameFeed f then acc else (acc.report "DISAGREE" "C18" "feed-append-multi" line).report "DISAGREE" "C09" "feed-append-multi" line
-      | .error _ => if ok then (acc.report "DISAGREE" "C18" "feed-append-multi-accept" line).report "DISAGREE" "C09" "feed-append-multi-accept" line else acc
+      | .error e => let acc := acc.cover s!"feed.{op}:{errTagOf e}"; if ok then (acc.report "DISAGREE" "C18" "feed-append-multi-accept" line).report "DISAGREE" "C09" "feed-append-multi-accept" line else acc
     | "updowner" =>
       let acc := if ok && snd != h.owner then acc.report "SPECFAIL" "C09" "feed-owner-change-by-non-owner" line else acc
       let acc := if ok && post.owner != kv.nat "new" then acc.report "SPECFAIL" "C09" "feed-owner-not-transferred" line else acc
       match updateOwner feedPre snd (kv.nat "new") with
       | .ok f => if ok && sameFeed f then acc else acc.report "DISAGREE" "C09" "feed-updowner" line
-      | .error _ => if ok then acc.report "DISAGREE" "C09" "feed-updowner-accept" line else acc
+      | .error e => let acc := acc.cover s!"feed.{op}:{errTagOf e}"; if ok then acc.report "DISAGREE" "C09" "feed-updowner-accept" line else acc
     | "q_price" =>
       let res := optRound kv
       let acc := if wf && !(Spec.C18F.latestOk pre res) then acc.report "SPECFAIL" "C18" "feed-latest-not-last-submission" line else acc
@@ -94,7 +94,7 @@ def handlePOp (acc : Acc) (h : FHist) (kv : KV) (line : String) : Acc × FHist :
       let acc := if ok && wf && !(Spec.C18F.twapWithin pre now iv r) then acc.report "SPECFAIL" "C18" "feed-twap-outside-submitted-prices" line else acc
       match getTwap pre now iv with
       | .ok m => if ok && m == r then acc else (acc.report "DISAGREE" "C18" "feed-twap" line).report "DISAGREE" "C11" "feed-twap" line
-      | .error _ => if ok then (acc.report "DISAGREE" "C18" "feed-twap-accept" line).report "DISAGREE" "C11" "feed-twap-accept" line else acc
+      | .error e => let acc := acc.cover s!"feed.{op}:{errTagOf e}"; if ok then (acc.report "DISAGREE" "C18" "feed-twap-accept" line).report "DISAGREE" "C11" "feed-twap-accept" line else acc
     | _ => acc
   (acc, post)
 
